@@ -66,7 +66,8 @@ claim("C12", "model_checking",
       "begun, StopTerminates and IdleEvicts on specs/Relay/UdpRelay.tla (thorough: without the re-arm guard StopTerminates must fail). The "
       "state graph, with the steps the real system takes by itself treated as urgent, is replayed on real NAT relays on loopback with the "
       "verifhook points as scheduler gates: Stop latency against the NAT timeout, goroutine and socket accounting after Stop, eviction after "
-      "the NAT timeout and a fresh session afterwards are observed on the real process.",
+      "the NAT timeout and a fresh session afterwards are observed on the real process. System level: specs/System/Manager.tla "
+      "(Manager.Run: start order, failing listener anywhere, stop order) is run on the real service manager with live UDP sessions.",
       "NAT relays (socks5 server, direct client), generic and sendmmsg; the session relays share the skeleton; 'prompt' = min(natTimeout/3, 8 s); "
       "real-time eviction replays tolerate (skip) spontaneous timeouts on a slow machine.",
       "TLA+ spec + TLC safety and liveness checking; gated replay of lifecycle interleavings on real UDP relays with leak accounting",
